@@ -229,7 +229,7 @@ func runC05(c *core.Ctx) {
 		}
 		e.f(c, s)
 		if e.name != "ToSeq" {
-			stageLifecycleRules(c, s, lifecycleOpts{only: "closing"})
+			stageLifecycleRules(c, s, lifecycleOpts{only: "closing", panics: true})
 		}
 		// "with functions that do not fail": the error hand-off is entered exactly when the function reported an
 		// error - a test on anything else sends successful elements down the error path (shared with C07)
